@@ -23,6 +23,7 @@ MODULES = {
     "C13": "c13_modifiers",
     "C14": "c14_network",
     "C15": "c14_network",
+    "C16": "c16_renorm",
     "C17": "c17_globals",
     "C18": "c18_roundtrip",
     "C19": "c19_solve",
